@@ -18,6 +18,7 @@ import (
 	"io"
 	"math/rand"
 	"net"
+	"os"
 	"sync"
 	"sync/atomic"
 	"time"
@@ -49,6 +50,7 @@ type WireStats struct {
 // address of a host.
 type Proxy struct {
 	ln     net.Listener
+	tmu    sync.Mutex
 	target string
 	Addr   string
 	net    *Net
@@ -60,19 +62,33 @@ type Proxy struct {
 	conns  map[net.Conn]struct{}
 }
 
+// freePort picks a loopback port below the ephemeral range (ports of that range are handed to
+// outgoing connections of any process and may be gone again by the time the NodeHost binds the
+// address it was given): 20000-29999, starting at a position derived from the process id, probing.
+var portCursor uint32
+
 func freePort() (string, error) {
-	l, err := net.Listen("tcp", "127.0.0.1:0")
-	if err != nil {
-		return "", err
+	for try := 0; try < 2000; try++ {
+		n := atomic.AddUint32(&portCursor, 1)
+		port := 20000 + (uint32(os.Getpid())*131+n*17)%10000
+		a := fmt.Sprintf("127.0.0.1:%d", port)
+		l, err := net.Listen("tcp", a)
+		if err != nil {
+			continue
+		}
+		_ = l.Close()
+		return a, nil
 	}
-	a := l.Addr().String()
-	_ = l.Close()
-	return a, nil
+	return "", fmt.Errorf("no free loopback port in 20000-29999")
 }
 
 // NewProxy listens on an ephemeral loopback port and forwards to target.
 func NewProxy(n *Net, target string, seed int64) (*Proxy, error) {
-	ln, err := net.Listen("tcp", "127.0.0.1:0")
+	addr, err := freePort()
+	if err != nil {
+		return nil, err
+	}
+	ln, err := net.Listen("tcp", addr)
 	if err != nil {
 		return nil, err
 	}
@@ -124,7 +140,10 @@ func (p *Proxy) intn(n int) int {
 func (p *Proxy) serve(in net.Conn) {
 	defer p.wg.Done()
 	defer in.Close()
-	out, err := net.DialTimeout("tcp", p.target, 2*time.Second)
+	p.tmu.Lock()
+	target := p.target
+	p.tmu.Unlock()
+	out, err := net.DialTimeout("tcp", target, 2*time.Second)
 	if err != nil {
 		return
 	}
@@ -178,6 +197,13 @@ func (p *Proxy) serve(in net.Conn) {
 	_ = in.Close()
 	_ = out.Close()
 	<-done
+}
+
+// Retarget makes the proxy forward to another address from now on.
+func (p *Proxy) Retarget(target string) {
+	p.tmu.Lock()
+	p.target = target
+	p.tmu.Unlock()
 }
 
 // Close stops the proxy and its connections.
@@ -326,6 +352,14 @@ func (c *wireSSConn) SendChunk(chunk pb.Chunk) error {
 	if blocked, _ := n.linkState(c.t.addr, c.to); blocked {
 		atomic.AddInt64(&n.wire.ChunkSendErrors, 1)
 		return errConn
+	}
+	if chunk.HasFileInfo {
+		n.mu.Lock()
+		n.stats.ExtFileChunks++
+		if chunk.FileSize%(2<<20) == 0 {
+			n.stats.ExtFileChunksOfWholeChunkFiles++
+		}
+		n.mu.Unlock()
 	}
 	f := n.WireFaults()
 	if n.roll(f.ChunkLostPm, 1000) {
